@@ -758,6 +758,30 @@ func (m *Machine) drawSummary(n *Term) Val {
 		m.drawLimit = 0
 		m.assert(tFalse, msg)
 	}
+	if m.coinMode > 0 && n.IsConst() && n.C == 2 {
+		// vCoinScript: fair coins take the scripted concrete values, except
+		// the one the harness leaves symbolic (long coin sequences would fork
+		// 2^Length ways otherwise; the harness states which vectors it runs)
+		k := m.coinSeen
+		m.coinSeen++
+		if k != m.coinFree {
+			v := uint64(0)
+			switch m.coinMode {
+			case 1:
+				v = 1
+			case 3:
+				v = uint64(1 - k%2)
+			}
+			c := BV(32, v)
+			m.draws = append(m.draws, drawRec{N: n, D: c})
+			for i := 3; i >= 0; i-- {
+				m.tape = append(m.tape, Extract(c, 8*i+7, 8*i))
+			}
+			m.reads++
+			m.readLens = append(m.readLens, 4)
+			return c
+		}
+	}
 	d := Var(fmt.Sprintf("draw%d", len(m.draws)), 32)
 	m.draws = append(m.draws, drawRec{N: n, D: d})
 	// the tape that realises this draw: the accepted word is d itself
